@@ -732,9 +732,36 @@ def sl_without_index(facts, body, op):
     return acc
 
 
+def r7(ctx, facts):
+    r = ctx.rule("R7", "a shard-aware connection is only ever opened from a source port the port iterator produced for that shard; when the iterator is exhausted the attempt fails", floor=1)
+    from ..util import field_slice
+    b = facts.one(r"^scylla::network::connection::open_connection_to_shard_aware_port::\{closure#0\}$")
+    opens = [c for c in b.calls_to("scylla::network::connection::open_connection")]
+    if not opens:
+        raise AnchorLost("open_connection_to_shard_aware_port does not call open_connection")
+    for c in opens:
+        op = c.args[1]
+        sd = b.single_def(op[1][0]) if op[0] in ("c", "m") else None
+        for _ in range(3):
+            if sd and sd[0] == "stmt" and sd[3][0] == "use" and sd[3][1][0] in ("c", "m"):
+                sd = b.single_def(sd[3][1][1][0])
+        ok = False
+        why = "its source port is not `Some(port)`"
+        if sd and sd[0] == "stmt" and sd[3][0] == "agg" and sd[3][1][0] == "adt" and sd[3][1][2] == "Some":
+            _, cs, bins = field_slice(b, sd[3][2][0])
+            nms = [(x.decl or x.name or "").split("::")[-1] for x in cs]
+            ok = "next" in nms and any((x.name or "").endswith(("iter_source_ports_for_shard_from_range", "iter_source_ports_for_shard")) for x in cs) and not bins
+            why = "its source port derives from %s" % sorted(set(nms))
+        r.instance("source-port-from-the-shard-iterator", ok,
+                   "open_connection_to_shard_aware_port opens a connection whose source port is not one the shard's port iterator produced (%s): the node derives the shard from the source port, "
+                   "so a port chosen by the OS lands on an arbitrary shard and lies outside the configured range" % why, c.span)
+    errs = [bb for bb in b.live_blocks for st in b.stmts(bb) if st[0] == "A" and st[2][0] == "agg" and st[2][1][0] == "adt" and st[2][1][2] == "NoSourcePortForShard"]
+    r.instance("exhausted-iterator-is-an-error", bool(errs), "when no source port of the shard can be used the function must fail with NoSourcePortForShard", b.span)
+
+
 def check(ctx):
     facts = inline_view(ctx.facts("default"))
-    for fn in (r1_r2, r3, r4, r5, r6):
+    for fn in (r1_r2, r3, r4, r5, r6, r7):
         try:
             fn(ctx, facts)
         except AnchorLost as ex:
